@@ -1135,6 +1135,16 @@ fn directed_limits(w: &World, sg: &Sigs, seed: u64, cap: usize, out: &mut String
             let xs: Option<Vec<Ms<Legacy>>> = (0..10).map(|i| pkh(w, 1 + i % 2, false)).collect();
             beside(pk(w, 0, false)?, and_tree(xs?)?, true)
         })()),
+        // /repo e37a8a3d: the limit applies to the scriptSig as a whole. 13 pkh: satisfaction items about 1400
+        // bytes (under the limit), items + push of the 350-byte redeem script over it; 11 pkh: whole scriptSig under it
+        ("legacy-scriptsig-items-under-whole-over-13-pkh", (|| {
+            let xs: Option<Vec<Ms<Legacy>>> = (0..13).map(|i| pkh(w, 1 + i % 2, false)).collect();
+            beside(pk(w, 0, false)?, and_tree(xs?)?, true)
+        })()),
+        ("legacy-control-11-pkh", (|| {
+            let xs: Option<Vec<Ms<Legacy>>> = (0..11).map(|i| pkh(w, 1 + i % 2, false)).collect();
+            beside(pk(w, 0, false)?, and_tree(xs?)?, true)
+        })()),
     ];
     for (what, m) in leg_cases {
         id += 1;
